@@ -89,6 +89,7 @@ def main():
     if not ck.build():
         ck.finish()
     ck.check_props()
+    ck.check_translation("parser")
     rng = ck.rng
     texts = [""]
     A = "IXYZ_s12"
